@@ -166,6 +166,15 @@ def check_dict(ctx, L, rng):
             return
     # default-argument isolation: a call without old must start from the empty state every time
     a = L.settings_to_dict(new_settings)
+    # a caller may do what it likes with the dict it got back: later calls must not see it
+    a[L.param.AnsiParamEffect.ITALICS] = L.AnsiSetting('3')
+    a.pop(L.param.AnsiParamEffect.FG_COLOR, None)
+    e0 = L.settings_to_dict([])
+    e0[L.param.AnsiParamEffect.CROSSED_OUT] = L.AnsiSetting('9')
+    unk = L.settings_to_dict([L.AnsiSetting('99')], old)
+    if unk is old:
+        ctx.violation('result-is-the-old-dict', det, mech='dict-argument-modified')
+    a = L.settings_to_dict(new_settings)
     b = L.settings_to_dict(new_settings)
     ctx.ev('dict-default-arg')
     if lib_state(a) != M.apply_ops(pn.ops if pn else [], {}) or lib_state(a) != lib_state(b):
